@@ -11,6 +11,7 @@
  * EXPECT-FAIL: MRG1 merge_patch
  * EXPECT-FAIL: MRG2 merge_patch
  * EXPECT-FAIL: MRG3 merge_patch
+ * EXPECT-FAIL: MRG4 merge_patch
  * EXPECT-FAIL: GEN1 create_patches
  */
 #include "cJSON.h"
@@ -294,6 +295,7 @@ static cJSON *merge_patch(cJSON *target, const cJSON * const patch)
         cJSON *member = cJSON_GetObjectItemCaseSensitive(target, patch_child->string);
         if (cJSON_IsNull(patch_child)) { cJSON_DeleteItemFromObjectCaseSensitive(target, patch_child->string); }
         if (cJSON_IsObject(patch_child) && cJSON_IsObject(member)) { (void)merge_patch(member, patch_child); continue; }
+        if (cJSON_IsArray(patch_child) && (member != NULL)) { cJSON_ReplaceItemViaPointer(target, member, cJSON_Duplicate(patch_child, 1)); continue; }   /* MRG4: no key */
         cJSON_DeleteItemFromObjectCaseSensitive(target, patch_child->string);
         cJSON_AddItemToObject(target, patch_child->string, cJSON_Duplicate(patch_child, 1));
     }
